@@ -242,13 +242,36 @@ def r2_self_threading_agrees(ctx):
     w = ws[0]
     ctx.touch(w)
     ok = False
-    for s in ast.walk(w.node):
-        if isinstance(s, ast.Assign) and isinstance(s.value, ast.IfExp):
-            v = s.value
-            if (str_value(v.body) or "").startswith("self") and str_value(v.orelse) == "" and "self" in src(v.test):
-                call = [c for c in ast.walk(w.node) if isinstance(c, ast.Call) and call_name(c) == dg.name][0]
-                passed = [dotted(a) for a in call.args] + [dotted(k.value) for k in call.keywords]
-                ok = dotted(s.targets[0]) in passed
+    call = [c for c in ast.walk(w.node) if isinstance(c, ast.Call) and call_name(c) == dg.name][0]
+    slf_param = dg.params[3] if len(dg.params) > 3 else None
+    passed = None
+    for k in call.keywords:
+        if k.arg == slf_param:
+            passed = k.value
+    if passed is None and len(call.args) > 3:
+        passed = call.args[3]
+    values, tests = [], []
+
+    def collect(e):
+        if isinstance(e, ast.IfExp):
+            tests.append(e.test)
+            collect(e.body)
+            collect(e.orelse)
+        elif isinstance(e, ast.Constant):
+            values.append(e.value)
+        elif isinstance(e, ast.Name):
+            for a in ast.walk(w.node):
+                if isinstance(a, ast.Assign) and any(dotted(t) == e.id for t in a.targets):
+                    collect(a.value)
+            for i in ast.walk(w.node):
+                if isinstance(i, ast.If) and any(isinstance(a, ast.Assign) and any(dotted(t) == e.id for t in a.targets) for b in (i.body, i.orelse) for a in b):
+                    tests.append(i.test)
+        else:
+            values.append(None)
+
+    if passed is not None:
+        collect(passed)
+    ok = set(values) == {"self, ", ""} and any("self" in src(t) for t in tests)
     ctx.ob(f"{w.key}:self-prefix-derived", w.loc(), "the wrapper passes 'self, ' exactly when the handlers take self", ok, "the dependent wrapper never (or always) threads self: value-dependent methods of a class are called without the instance")
 
 
